@@ -130,6 +130,8 @@ def build_operator(kind, cfg, label, square=None, dims=None):
             for i in range(ar):
                 if cfg.get("mult", "sym") == "one":
                     mults.append(1)
+                elif isinstance(cfg.get("mult"), (tuple, list)):
+                    mults.append(int(cfg["mult"][i % len(cfg["mult"])]))
                 else:
                     mi = sym_dim(f"{label}_m{i}")
                     mults.append(mi)
@@ -213,6 +215,8 @@ class RuleRunner:
         """cartesian product of: union alternatives per parameter, arity, dtype, annotations, literals"""
         alts = [k for k in kinds]
         for choice in itertools.product(*alts):
+            if self.spec.get("skip_choice") is not None and self.spec["skip_choice"](choice):
+                continue
             has_var = any(c[0] == "op" and c[1] in VARIADIC for c in choice)
             arities = self.spec.get("arities", [1, 2, 3]) if has_var else [0]
             dtypes = self.spec.get("dtypes", [np.float64, np.complex128])
